@@ -18,6 +18,132 @@ pub enum Case {
         alts: Vec<(u8, u8)>,
         ballast: u8,
     },
+    /// net level: handlers issue bursts of send_in / schedule_in calls (many for the same instant, not sorted by
+    /// time); the arrival order at the receivers must be the order RefSim gives for that scheduling history
+    Net { bursts: Vec<Burst> },
+}
+
+#[derive(Clone, Debug, Serialize, Deserialize)]
+pub struct Burst {
+    /// instant of the handler that issues the burst (microseconds)
+    pub at_us: u16,
+    /// (target: 0 = schedule_in to self, 1..=3 = send_in on gate out<k>; index into NET_DELAYS_US)
+    pub ops: Vec<(u8, u8)>,
+}
+
+pub const NET_DELAYS_US: [u64; 8] = [0, 1, 2, 2, 5, 10, 10, 100];
+
+struct NetSender {
+    bursts: Vec<Burst>,
+    next_id: u16,
+}
+impl des::prelude::Module for NetSender {
+    fn at_sim_start(&mut self, _: usize) {
+        use des::prelude::*;
+        for (i, b) in self.bursts.iter().enumerate() {
+            schedule_at(Message::default().kind(1).id(i as u16), crate::net::st(b.at_us as u128 * 1_000));
+        }
+    }
+    fn handle_message(&mut self, msg: des::prelude::Message) {
+        use des::prelude::*;
+        if msg.header().kind == 1 {
+            let burst = self.bursts[msg.header().id as usize].clone();
+            for (target, d) in burst.ops {
+                let id = self.next_id;
+                self.next_id += 1;
+                let d = Duration::from_micros(NET_DELAYS_US[d as usize % NET_DELAYS_US.len()]);
+                let m = Message::default().kind(2).id(id);
+                match target % 4 {
+                    0 => schedule_in(m, d),
+                    k => {
+                        let gate = format!("out{k}");
+                        if d.is_zero() {
+                            send(m, gate.as_str());
+                        } else {
+                            send_in(m, gate.as_str(), d);
+                        }
+                    }
+                }
+            }
+        } else {
+            crate::net::log("arrive", msg.header().id as i64, 0);
+        }
+    }
+}
+struct NetReceiver;
+impl des::prelude::Module for NetReceiver {
+    fn handle_message(&mut self, msg: des::prelude::Message) {
+        crate::net::log("arrive", msg.header().id as i64, 0);
+    }
+}
+
+fn run_net(bursts: &[Burst]) -> Result<(bool, Vec<&'static str>), Failure> {
+    use des::prelude::*;
+    crate::net::log_clear();
+    let mut sim = Sim::new(());
+    sim.node("s", NetSender { bursts: bursts.to_vec(), next_id: 0 });
+    for k in 1..=3 {
+        sim.node(format!("r{k}"), NetReceiver);
+        sim.gate("s", &format!("out{k}")).connect(sim.gate(format!("r{k}"), "in"), None);
+    }
+    let rt = Builder::seeded(2).quiet().max_itr(100_000).build(sim.freeze());
+    let res = rt.run();
+    let log = crate::net::log_take();
+    let ok = res.is_ok();
+    drop(res);
+    crate::vensure!(ok, "run-returned-error", "run() returned an error");
+    // model: triggers are scheduled at start in index order; every emission is one event at now + delay
+    let mut sim = prog::RefSim::new();
+    const TRIGGER: u32 = 1_000_000;
+    for (i, b) in bursts.iter().enumerate() {
+        sim.schedule(TRIGGER + i as u32, b.at_us as u128 * 1_000);
+    }
+    let mut next = 0u32;
+    let mut want: Vec<(String, i64)> = Vec::new();
+    let mut target_of: Vec<u8> = Vec::new();
+    let mut max_burst = 0;
+    let mut tie = false;
+    let mut last: Option<u128> = None;
+    while let Some((ev, now)) = sim.pop() {
+        if ev >= TRIGGER {
+            let b = &bursts[(ev - TRIGGER) as usize];
+            max_burst = max_burst.max(b.ops.len());
+            for (target, d) in &b.ops {
+                sim.schedule(next, now + NET_DELAYS_US[*d as usize % NET_DELAYS_US.len()] as u128 * 1_000);
+                target_of.push(*target % 4);
+                next += 1;
+            }
+        } else {
+            if last == Some(now) {
+                tie = true;
+            }
+            last = Some(now);
+            let t = target_of[ev as usize];
+            want.push((if t == 0 { "s".to_string() } else { format!("r{t}") }, ev as i64));
+        }
+    }
+    let got: Vec<(String, i64)> = log.iter().filter(|r| r.kind == "arrive").map(|r| (r.path.clone(), r.a)).collect();
+    for (k, (g, w)) in got.iter().zip(want.iter()).enumerate() {
+        crate::vensure!(
+            g == w,
+            "tie-order",
+            "arrival #{k} is message {} at {}, the scheduling order demands message {} at {}; bursts {:?}",
+            g.1,
+            g.0,
+            w.1,
+            w.0,
+            bursts
+        );
+    }
+    crate::vensure!(got.len() == want.len(), "tie-order", "{} arrivals, expected {}", got.len(), want.len());
+    let mut labels = vec!["net-level"];
+    if max_burst > 20 {
+        labels.push("burst>20-in-one-handler");
+    }
+    if tie {
+        labels.push("tie-group");
+    }
+    Ok((tie && max_burst >= 2, labels))
 }
 
 pub struct C03;
@@ -45,6 +171,7 @@ fn run_case(case: &Case) -> Result<(bool, Vec<&'static str>), Failure> {
             }
             Ok((fl.tie_groups > 0 && fl.tie_zero_and_older, labels))
         }
+        Case::Net { bursts } => run_net(bursts),
         Case::Prog { program, alts, ballast } => {
             let m = prog::model(program, 0, &[], None);
             let base = prog::execute(program, &ExecOpts::default())?;
@@ -104,7 +231,8 @@ impl Prop for C03 {
     type Case = Case;
 
     fn rule() -> String {
-        "two generators: (a) CQueue histories (C01 generator) checked against the stated tie rule (same-instant insertions FIFO first, then scheduling \
+        "three generators: (c) net level: module handlers issue bursts of up to 60 send_in / schedule_in calls with delays from {0,1,2,2,5,10,10,100} us \
+         (unsorted, many ties) over direct gate connections, receivers log arrivals, the global arrival order must equal the RefSim order; (a) CQueue histories (C01 generator) checked against the stated tie rule (same-instant insertions FIFO first, then scheduling \
          order); (b) tie-biased event programs on a raw Runtime (bursts for one instant, zero-delay follow-ups while older events of the same instant \
          are pending, ties on year boundaries) executed under the default and up to 2 alternative (n,t) parameterisations and with 0/50/500 far-future \
          ballast events; oracle = RefSim order, identical in all executions. Non-trivial iff a dispatch faced a tie group >= 2 that contained both a \
@@ -136,6 +264,12 @@ impl Prop for C03 {
                 0u8..3
             )
                 .prop_map(|(program, alts, ballast)| Case::Prog { program, alts, ballast }),
+            1 => proptest::collection::vec(
+                (0u16..40, proptest::collection::vec((0u8..4, 0u8..NET_DELAYS_US.len() as u8), 0..60))
+                    .prop_map(|(at_us, ops)| Burst { at_us, ops }),
+                1..4
+            )
+            .prop_map(|bursts| Case::Net { bursts }),
         ]
         .boxed()
     }
